@@ -90,7 +90,8 @@ def deadline(ctx, fn="calculate_timeout_when", part="all"):
 
 
 # ------------------------------------------------------------------ fault scripts
-PHASES = ["connect", "before-status", "mid-header", "mid-body", "mid-chunk", "none", "none-chunked-big"]
+PHASES = ["connect", "before-status", "mid-header", "mid-body", "mid-chunk", "none", "none-chunked-big",
+          "none-late-body"]
 
 
 def fault(ctx, phases=None, kinds=None, cancel=False):
@@ -137,6 +138,9 @@ def fault(ctx, phases=None, kinds=None, cancel=False):
         t0 = loop.time()
         try:
             async with session.get("http://h" + path) as resp:
+                if phase == "none-late-body" and key == "first":
+                    # the caller does something else before it reads: the body piles up unread
+                    await asyncio.sleep(0.2)
                 body = await resp.read()
                 result[key] = ("ok", bytes(body), loop.time() - t0)
         except asyncio.CancelledError:
@@ -173,6 +177,11 @@ def fault(ctx, phases=None, kinds=None, cancel=False):
                     c["proto"].data_received(full_ch[:-12])
                 elif stall == "none":
                     c["proto"].data_received(full_cl)
+                elif stall == "none-late-body":
+                    # headers first; the whole body (above the high-water mark) in one later segment
+                    c["proto"].data_received(b"HTTP/1.1 200 OK\r\nContent-Length: 12\r\n\r\n")
+                    loop.run_ready()
+                    c["proto"].data_received(b"hello world!")
                 elif stall == "none-chunked-big":
                     # first chunk crosses the high-water mark (2 x read_bufsize), then a small final chunk
                     c["proto"].data_received(b"HTTP/1.1 200 OK\r\nTransfer-Encoding: chunked\r\n\r\nb\r\nhello world\r\n")
@@ -195,7 +204,7 @@ def fault(ctx, phases=None, kinds=None, cancel=False):
             break
         loop.advance(0.5)
         peer(stall)
-    stalls = phase not in ("none", "none-chunked-big")
+    stalls = phase not in ("none", "none-chunked-big", "none-late-body")
     tag = f"{phase}:{kind}{':cancel' if cancel else ''}"
     if stalls and not cancel:
         expect_timeout = (kind == "total") or (kind == "connect" and phase == "connect") or \
@@ -223,7 +232,8 @@ def fault(ctx, phases=None, kinds=None, cancel=False):
         return fail("request-task-never-ends")
     # ---- residue
     first_ok = result.get("first", ("?",))[0] == "ok"
-    if not first_ok:
+    if not first_ok and stalls:
+        # (a response that had arrived completely before the caller was cancelled may be pooled)
         for c in conns[:1]:
             if not c["tr"].closed:
                 return fail("connection-left-open-after-timeout-or-cancel")
